@@ -2,7 +2,10 @@
   mp.scope <src:mem|stream> <mis:throw|skip> <doc tokens> <requests>
     doc tokens (comma separated): n t f i<dec> d<hexbits> s<hex> b<hex> a<n> m<n>     (`s-` = empty string)
     requests (semicolon separated): g<key>=<ty> A<key> O<key> v n=<ty> a o e c        key: s<hex>|i<dec>  ty: i b s d n
-    answers: T<scalar> F P<n> K<keys> Y N C E<class> X ?
+    answers: T<scalar> F P<n> K<keys> Y N C E<class> X ?     (a trailing E after the last request = the error that a
+             destructor deferred, rethrown by Finalize())
+  mp.tuple  <src> <mis> <doc tokens>      LoadObject into std::tuple<int64,string,int64,bool>
+  mp.tuple  <src> <mis> <doc tokens> obj  LoadObject into struct { that tuple "t"; int64 "z" }: 4 element answers ; z
 -/
 import BSVerif.Scope.Spec
 import BSVerif.Scope.VarKey
@@ -115,39 +118,101 @@ def parseAns (s : String) : Option Ans :=
     elements rejected under ThrowError) -/
 def tupleTys : List Ty := [.int, .str, .int, .bool]
 
+/-- `SerializeArray(arrayScope, tuple)` on the freshly opened array scope `st`: the element answers and the state in
+    which the array scope is then destroyed, or the exception -/
+def tupleElems (mis : Mis) : List Ty → St → List Ans → Except Ans (List Ans × St)
+  | [], st, acc =>
+    match step st .isEnd with
+    | (.flag false, _) => if mis = .throwError then .error (.err .mismatched) else .ok (acc.reverse, st)
+    | _ => .ok (acc.reverse, st)
+  | ty :: tys, st, acc =>
+    match step st (.next ty) with
+    | (.err .outOfRange, _) =>
+      if mis = .throwError then .error (.err .mismatched) else .ok (acc.reverse ++ (ty :: tys).map fun _ => Ans.no, st)
+    | (.err e, _) => .error (.err e)
+    | (a, st') => tupleElems mis tys st' (a :: acc)
+
+/-- what `Finalize()` adds after the last scope was closed -/
+def finalize (st : St) (answers : List Ans) : List Ans :=
+  match st.deferred with
+  | some e => [.err e]
+  | none => answers
+
+/-- `LoadObject(tuple, doc)`: root `OpenArrayScope`, the elements, the scope's destructor, `Finalize()` -/
 def tupleModel (mis : Mis) (doc : List Tok) : List Ans :=
   let st0 := initSt doc mis
   match step st0 .openArr with
   | (.opened _, st1) =>
-    let rec go : List Ty → St → List Ans → List Ans
-      | [], st, acc =>
-        match step st .isEnd with
-        | (.flag false, _) => if mis = .throwError then [.err .mismatched] else acc.reverse
-        | _ => acc.reverse
-      | ty :: tys, st, acc =>
-        match step st (.next ty) with
-        | (.err .outOfRange, _) => if mis = .throwError then [.err .mismatched] else (acc.reverse ++ (ty :: tys).map fun _ => Ans.no)
-        | (.err e, _) => [.err e]
-        | (a, st') => go tys st' (a :: acc)
-    go tupleTys st1 []
+    match tupleElems mis tupleTys st1 [] with
+    | .error a => [a]
+    | .ok (as, st2) => finalize (step st2 .close).2 as
   | (.no, _) => tupleTys.map fun _ => Ans.no
   | (.err e, _) => [.err e]
   | _ => [.badReq]
 
-/-- abstract expectation for the tuple load (from the data model, not from the scope model) -/
-def tupleSpec (mis : Mis) (doc : List Tok) : Option (List Ans) :=
-  match Spec.parseDoc doc with
-  | some (.arr items :: _) =>
+def keyT : Key := .str [116]
+def keyZ : Key := .str [122]
+
+/-- `LoadObject(holder, doc)` with `struct { std::tuple<…> t; int64_t z; }` serialized as `KeyValue("t", t) << KeyValue("z", z)`:
+    the tuple is an array scope INSIDE an object scope, closed wherever the tuple stops (shorter tuple under Skip,
+    shorter array), and the field behind it is requested afterwards -/
+def tupleObjModel (mis : Mis) (doc : List Tok) : List Ans :=
+  let st0 := initSt doc mis
+  match step st0 .openObj with
+  | (.opened _, st1) =>
+    let afterT : Except Ans (List Ans × St) :=
+      match step st1 (.openArrK keyT) with
+      | (.opened _, st2) =>
+        match tupleElems mis tupleTys st2 [] with
+        | .error a => .error a
+        | .ok (as, st3) => .ok (as, (step st3 .close).2)
+      | (.no, st2) => .ok (tupleTys.map fun _ => Ans.no, st2)
+      | (a, _) => .error a
+    match afterT with
+    | .error a => [a]
+    | .ok (as, st4) =>
+      match step st4 (.get keyZ .int) with
+      | (.err e, _) => [.err e]
+      | (z, st5) => finalize (step st5 .close).2 (as ++ [z])
+  | (.no, _) => (tupleTys.map fun _ => Ans.no) ++ [Ans.no]
+  | (.err e, _) => [.err e]
+  | _ => [.badReq]
+
+/-- abstract expectation for a tuple loaded from the value `v` (from the data model, not from the scope model);
+    `none` = no value (absent key) -/
+def tupleValSpec (mis : Mis) (v : Option Spec.Val) : Except Ans (List Ans) :=
+  match v with
+  | some (.arr items) =>
     let per := (tupleTys.zip items).map fun (ty, v) => Spec.expectScalar mis ty v
     match per.find? (fun a => match a with | .err _ => true | _ => false) with
-    | some e => some [e]
+    | some e => .error e
     | none =>
       if items.length < tupleTys.length then
-        (if mis = .throwError then some [.err .mismatched] else some (per ++ (List.replicate (tupleTys.length - items.length) Ans.no)))
-      else if items.length > tupleTys.length ∧ mis = .throwError then some [.err .mismatched]
-      else some per
-  | some (.sc .nil :: _) => some (tupleTys.map fun _ => Ans.no)
-  | some (_ :: _) => if mis = .throwError then some [.err .mismatched] else some (tupleTys.map fun _ => Ans.no)
+        (if mis = .throwError then .error (.err .mismatched) else .ok (per ++ (List.replicate (tupleTys.length - items.length) Ans.no)))
+      else if items.length > tupleTys.length ∧ mis = .throwError then .error (.err .mismatched)
+      else .ok per
+  | some (.sc .nil) | none => .ok (tupleTys.map fun _ => Ans.no)
+  | some _ => if mis = .throwError then .error (.err .mismatched) else .ok (tupleTys.map fun _ => Ans.no)
+
+def tupleSpec (mis : Mis) (doc : List Tok) : Option (List Ans) :=
+  match Spec.parseDoc doc with
+  | some (v :: _) => some (match tupleValSpec mis (some v) with | .ok as => as | .error e => [e])
+  | _ => none
+
+/-- the holder object: whatever the tuple takes from (or leaves in) the array under "t", the field "z" behind it
+    must load as the value stored under "z" -/
+def tupleObjSpec (mis : Mis) (doc : List Tok) : Option (List Ans) :=
+  match Spec.parseDoc doc with
+  | some (.map es :: _) =>
+    match tupleValSpec mis (Spec.lookup es keyT) with
+    | .error e => some [e]
+    | .ok as =>
+      match (Spec.lookup es keyZ).map (Spec.expectScalar mis .int) with
+      | some (.err e) => some [.err e]
+      | some z => some (as ++ [z])
+      | none => some (as ++ [Ans.no])
+  | some (.sc .nil :: _) => some ((tupleTys.map fun _ => Ans.no) ++ [Ans.no])
+  | some (_ :: _) => if mis = .throwError then some [.err .mismatched] else some ((tupleTys.map fun _ => Ans.no) ++ [Ans.no])
   | _ => none
 
 def handle (toks : List String) (impl : Option String) : Option (String × String) :=
@@ -171,6 +236,18 @@ def handle (toks : List String) (impl : Option String) : Option (String × Strin
       | some i =>
         match (i.splitOn ";").mapM parseAns, tupleSpec mis doc with
         | some ia, some exp => if ia = exp then "ok" else "bad:tuple_elements_differ_from_the_data_model"
+        | none, _ => "bad:unparsable_or_abnormal_answer"
+        | _, none => "nospec"
+      | none => "nospec"
+    pure (ans, v)
+  | ["mp.tuple", _src, mis, docS, "obj"] => do
+    let mis ← match mis with | "throw" => some Mis.throwError | "skip" => some Mis.skip | _ => none
+    let doc ← (docS.splitOn ",").mapM parseTok
+    let ans := String.intercalate ";" ((tupleObjModel mis doc).map ansStr)
+    let v := match impl with
+      | some i =>
+        match (i.splitOn ";").mapM parseAns, tupleObjSpec mis doc with
+        | some ia, some exp => if ia = exp then "ok" else "bad:tuple_or_the_field_behind_it_differs_from_the_data_model"
         | none, _ => "bad:unparsable_or_abnormal_answer"
         | _, none => "nospec"
       | none => "nospec"
